@@ -1,5 +1,5 @@
 /-
-The build-line quoting of the backend (`ninja_quote`, model `Emit.ninjaQuoteBuild`) against the manifest lexer
+The build-line quoting of the backend (`ninja_quote`, model `Emit.ninjaQuoteBuild` / `Emit.quoteChars`) against the manifest lexer
 (`Manifest.readEval`): what is written for a name is read back as exactly that name — unless the name holds a `|`.
 -/
 import MesonModel.Ninja.Manifest
@@ -17,10 +17,10 @@ theorem readEval_term (fuel : Nat) (c0 : Char) (h0 : isTerm c0) (tail : Str) (ac
 
 theorem readEval_quote : ∀ (s : Str), (∀ c ∈ s, PlainChar c) → ∀ (c0 : Char), isTerm c0 → ∀ (tail : Str) (acc : EvalStr)
     (fuel : Nat), s.length + 1 ≤ fuel →
-    readEval true fuel false (ninjaQuoteBuild s ++ c0 :: tail) acc = .ok (acc.reverse ++ s.map Piece.lit, c0 :: tail)
+    readEval true fuel false (quoteChars s ++ c0 :: tail) acc = .ok (acc.reverse ++ s.map Piece.lit, c0 :: tail)
   | [], _, c0, h0, tail, acc, fuel, hf => by
     obtain ⟨f, rfl⟩ : ∃ f, fuel = f + 1 := ⟨fuel - 1, by simp at hf; omega⟩
-    simpa [ninjaQuoteBuild] using readEval_term f c0 h0 tail acc
+    simpa [quoteChars] using readEval_term f c0 h0 tail acc
   | c :: r, hs, c0, h0, tail, acc, fuel, hf => by
     obtain ⟨f, rfl⟩ : ∃ f, fuel = f + 1 := ⟨fuel - 1, by simp at hf; omega⟩
     have hr : ∀ d ∈ r, PlainChar d := fun d hd => hs d (by simp [hd])
@@ -29,17 +29,17 @@ theorem readEval_quote : ∀ (s : Str), (∀ c ∈ s, PlainChar c) → ∀ (c0 :
     by_cases h1 : c = '$'
     · subst h1
       have := readEval_quote r hr c0 h0 tail (.lit '$' :: acc) f hf'
-      simp [ninjaQuoteBuild, readEval, this]
+      simp [quoteChars, readEval, this]
     · by_cases h2 : c = ' '
       · subst h2
         have := readEval_quote r hr c0 h0 tail (.lit ' ' :: acc) f hf'
-        simp [ninjaQuoteBuild, readEval, this]
+        simp [quoteChars, readEval, this]
       · by_cases h3 : c = ':'
         · subst h3
           have := readEval_quote r hr c0 h0 tail (.lit ':' :: acc) f hf'
-          simp [ninjaQuoteBuild, readEval, this]
+          simp [quoteChars, readEval, this]
         · have := readEval_quote r hr c0 h0 tail (.lit c :: acc) f hf'
-          simp only [ninjaQuoteBuild, h1, h2, h3, or_self, if_false, List.cons_append]
+          simp only [quoteChars, h1, h2, h3, or_self, if_false, List.cons_append]
           unfold readEval
           split <;> simp_all
 
